@@ -460,23 +460,34 @@ def _compare_rules(ck: Checker) -> None:
         def isdir_name(nm: str) -> bool:
             return "isdir" in nm or any(d.kind == "assign" and "isdir" in norm(d.value) for d in _scope(cmp_).get(nm))
 
-        def kinds_lit(a, lab) -> bool:
-            if a.kind != "test":
-                return False
+        def side_of(nm: str) -> str:
+            txt = nm + " " + " ".join(norm(d.value) for d in _scope(cmp_).get(nm) if d.kind == "assign")
+            return "old" if "old" in txt and "new" not in txt else ("new" if "new" in txt and "old" not in txt else "?")
+
+        def kinds_equal(a, lab) -> bool:
             e = a.ast
-            if isinstance(e, ast.Compare) and len(e.ops) == 1 and isinstance(e.left, ast.Name) and isinstance(e.comparators[0], ast.Name) and isdir_name(e.left.id) and isdir_name(e.comparators[0].id):
+            if a.kind == "test" and isinstance(e, ast.Compare) and len(e.ops) == 1 and isinstance(e.left, ast.Name) and isinstance(e.comparators[0], ast.Name) and isdir_name(e.left.id) and isdir_name(e.comparators[0].id):
                 return (isinstance(e.ops[0], ast.NotEq) and lab == "F") or (isinstance(e.ops[0], ast.Eq) and lab == "T")
-            # `old_isdir and new_isdir`: the second atom of the chain, true edge
-            if isinstance(e, ast.Name) and isdir_name(e.id) and lab == "T":
-                preds = [p for p in g.nodes.values() if p.kind == "test" and isinstance(p.ast, ast.Name) and p.ast.id != e.id and isdir_name(p.ast.id) and ("T", a.id) in p.succ]
-                return bool(preds)
             return False
 
+        def is_dir_of(side):
+            def lit(a, lab) -> bool:
+                e = a.ast
+                return kinds_equal(a, lab) or (a.kind == "test" and lab == "T" and isinstance(e, ast.Name) and isdir_name(e.id) and side_of(e.id) == side)
+
+            return lit
+
+        # a path round the delete is justified when it learns "kinds equal", or BOTH "old is a directory" and "new is a
+        # directory": it must therefore be cut by each of the two literal sets {equal, old-is-dir} and {equal, new-is-dir}
         dids = {n.id for n in d_in}
         heads_ = {x.id for x in g.nodes.values() if x.kind == "for" and x.id in t.loops}
-        lifted_k = with_flags(g, kinds_lit, start=t.loops[-1] if t.loops else None)
-        rr2 = g.reach([d for lab, d in t.succ if lab == mlab], skip_node=lambda x: x.id in dids, skip_edge=lambda a, lab, b: lab == "exc" or lifted_k(a, lab))
-        badk = [h_ for h_ in heads_ if h_ in rr2]
+        badk, rr2 = [], set()
+        for side in ("old", "new"):
+            lifted_k = with_flags(g, is_dir_of(side), start=t.loops[-1] if t.loops else None)
+            rr2 = g.reach([d for lab, d in t.succ if lab == mlab], skip_node=lambda x: x.id in dids, skip_edge=lambda a, lab, b, lk=lifted_k: lab == "exc" or lk(a, lab))
+            badk = [h_ for h_ in heads_ if h_ in rr2]
+            if badk:
+                break
         ck.require(not badk, "C09.kinds", cmp_, t, "a MODIFY skips the replacement only when old and new are known to be of the same kind",
                    "a MODIFY can leave the old entry in place without having compared the kinds of old and new (only the hashes): when neither side has a hash - a workspace scanned without hashing, an intermediate directory of a tree - a file stays where a directory is needed and creating what lies below fails",
                    witness=g.fmt_path(g.path_to(rr2, badk[0])) if badk else None, construct="MODIFY / kinds compared")
